@@ -8,6 +8,7 @@
 import QV.Proofs.AuditPlain
 import QV.Proofs.ServerSignedTable
 import QV.Proofs.ServerAnswerFields
+import QV.Proofs.ServerAnswerMono
 
 namespace QV.ServerContent
 open QV QV.Wire QV.Reader QV.Writer QV.Server QV.ServerSafety QV.ServerScan QV.ServerAnswer QV.Spec QV.ServerTsig
